@@ -77,6 +77,9 @@ let () =
   register "reverse" (fun a -> match a with
     | [_; v] -> let v = getL v in { model = ok_list (reverse v); spec = ok_list (List.rev v); dom = true }
     | _ -> failwith "reverse");
+  register "argsort" (fun a -> match a with
+    | [_; v] -> let v = getL v in { model = ok_list (argsort_z v); spec = ok_list (np_argsort v); dom = true }
+    | _ -> failwith "argsort");
   register "normalize_axis" (fun a -> match a with
     | [I ax; I nd] ->
         let ok = Z.leb (Z.opp nd) ax && zlt ax nd in
